@@ -3,8 +3,8 @@ from harness import common, tstate, tsprop
 
 PROP = 'C07'
 DRIVER = 'TorState'
-LEAN_TARGETS = ['TxV.Props.C07', 'TxV.Props.C07b', 'TxV.Props.SourceTie']
-PROP_MODULES = ['TxV.Props.C07', 'TxV.Props.C07b', 'TxV.Props.SourceTie']
+LEAN_TARGETS = ['TxV.Props.C07', 'TxV.Props.C07b', 'TxV.Props.C07c', 'TxV.Props.SourceTie']
+PROP_MODULES = ['TxV.Props.C07', 'TxV.Props.C07b', 'TxV.Props.C07c', 'TxV.Props.SourceTie']
 AUDIT = 'Audit/C07.lean'
 
 
